@@ -115,7 +115,8 @@ fn check(id: &str, tier: &str) -> i32 {
     let meta = (p.meta)();
     let bounds = (p.bounds)(tier);
     let code = report::finish(&meta, tier, seed(), t0.elapsed().as_secs_f64(), &out, bounds);
-    if machinery_failed {
+    // (a violation that was found and confirmed stands, also when another worker of the run failed)
+    if machinery_failed && code != 1 {
         return 2;
     }
     code
